@@ -345,16 +345,20 @@ def _lower_special(B, bi, nm, done):
         # if (*self) is None { *self = Some(f()) }; &mut (*self as Some).0
         slf = args[0]
         c = B.closure_of(args[1]) if len(args) > 1 else None
-        if slf.get("k") not in ("move", "copy") or c is None:
+        fitem = args[1]["fn"] if (c is None and len(args) > 1 and args[1].get("k") == "const" and "fn" in args[1]) else None
+        if slf.get("k") not in ("move", "copy") or (c is None and fitem is None):
             return False
-        sp = _place(slf["p"]["l"], None, list(slf["p"]["proj"]) + [{"k": "deref"}])
+        sp = _place(slf["p"]["l"], "std::option::Option<%s>" % T_, list(slf["p"]["proj"]) + [{"k": "deref"}])
         pay = _place(sp["l"], T_, list(sp["proj"]) + [{"k": "downcast", "v": 1, "name": "Some"}, {"k": "field", "i": 0, "name": "0", "of": OPT, "ty": T_}])
         out_b = B.new_block([_assign(copy.deepcopy(D), {"k": "ref", "mut": True, "p": pay}, ln)], {"k": "goto", "t": C, "ln": ln}, mark)
-        g = B.prog.fns[c[0]]
-        tmp = B.new_local(g.locals[0]["ty"])
-        store_b = B.new_block([_assign(copy.deepcopy(sp), _adt(OPT, "Some", 1, [_mv(tmp, g.locals[0]["ty"])]), ln)], {"k": "goto", "t": out_b, "ln": ln}, mark)
-        call_b = _closure_call_block(B, c[0], c[1], [], [], _place(tmp, g.locals[0]["ty"]), store_b, None, ln, mark, t.get("unwind"), crate)
-        done[c[0]] = done.get(c[0], 0) + 1
+        rty_ = B.prog.fns[c[0]].locals[0]["ty"] if c is not None else (T_ or "?")
+        tmp = B.new_local(rty_)
+        store_b = B.new_block([_assign(copy.deepcopy(sp), _adt(OPT, "Some", 1, [_mv(tmp, rty_)]), ln)], {"k": "goto", "t": out_b, "ln": ln}, mark)
+        if c is not None:
+            call_b = _closure_call_block(B, c[0], c[1], [], [], _place(tmp, rty_), store_b, None, ln, mark, t.get("unwind"), crate)
+            done[c[0]] = done.get(c[0], 0) + 1
+        else:
+            call_b = _fn_call_block(B, fitem, [], _place(tmp, rty_), store_b, None, ln, mark, t.get("unwind"), rty_)
         d = B.new_local("isize")
         unreachable = B.new_block([], {"k": "unreachable", "ln": ln}, mark)
         b["stmts"].append(_assign(_place(d, "isize"), {"k": "discr", "p": copy.deepcopy(sp)}, ln))
